@@ -93,7 +93,7 @@ def operands(quick):
     """(right operands, dictionaries (Each only), left operands)."""
     base = [0, 1, 2.5, C('a'), '', 'a', 'abc', [], [1], [1, 2], [3, 1, 2], [3, 1, 2, 5, 4], [1.5, 2.5], [0.5, 2.0, 4.0, 1.0],
             [[1, 2], [3, 4]], [[1, 2, 3], [4, 5, 6]], [[[1, 2], [3, 4]], [[5, 6], [7, 8]]], [1, [2, 3]], [[1], [2, 3]],
-            ['ab', 'cd'], ['a', ['b'], 'c'], [5, 1, 2, 3, 4, 7]]
+            ['ab', 'cd'], ['a', ['b'], 'c'], [5, 1, 2, 3, 4, 7], [4, 2, 0]]         # [4 2 0]: a zero after the first position
     more = [-3, 5, 2, 0.5, Y('foo'), C('b'), 'hello', [2], [2.0], [1, 1, 2], [2, 0, 1], [4, 2, 7, 1], [0, 1, 0, 1, 0],
             [1, 2, 3, 4, 5], [1.5], [2, 0.5, -1.5], [[1.5, 2], [3, 4]], [[1], [2], [3]], [[1, 2, 3]], [[1, 2], 3],
             [1, [2, [3]]], [[], [1]], ['a', 'bcd'], [1, 'a', C('b')], [C('a'), C('b')], [Y('foo'), Y('x')],
@@ -118,6 +118,10 @@ def ambiguous(verb, sym):
 def program(case):
     """case = (form or (form1, form2), verb text, left, operand) with left: canonical value, count or predicate text."""
     form, vtext, left, a = case
+    if isinstance(form, tuple) and form[0] == '@var':
+        # single adverb, operand bound to a variable: the form in which the expression compiler may take the adverb over
+        sym = FORMS[form[1]][0]
+        return 'A::' + lit(a) + ';' + vtext + sym + 'A'
     if isinstance(form, tuple):
         if len(form) == 3:          # operand reaches the chain through a variable (an expression, not a literal)
             return 'A::' + lit(a) + ';' + vtext + FORMS[form[0]][0] + FORMS[form[1]][0] + 'A'
@@ -305,6 +309,8 @@ def evaluate(text, pynames=(), compiler=True):
 
 def expected_of(plain, case, vmap):
     form, vtext, left, a = case
+    if isinstance(form, tuple) and form[0] == '@var':
+        form = form[1]
     if isinstance(form, tuple):
         v = vmap[(vtext, FORMS[form[0]][1])]
         return model.expand_chain(form[0], form[1], plain.ap, plain.match, v, a)
@@ -330,7 +336,15 @@ PY_SOURCE = {'padd': 'lambda x, y: x + y', 'psub': 'lambda x, y: x - y', 'ptwo':
 CHOICE_ACC = {'$', '<', '>'}        # verbs whose accept set is a choice of value (not only of kind / representation)
 
 
+def first_form(form):
+    if isinstance(form, tuple):
+        return form[1] if form[0] == '@var' else form[0]
+    return form
+
+
 def form_name(form):
+    if isinstance(form, tuple) and form[0] == '@var':
+        return form[1] + '@var'
     return '+'.join(form) if isinstance(form, tuple) else form
 
 
@@ -372,8 +386,7 @@ def check_case(plain, case, vmap, out):
     out['outcomes'].add(hash((fname, observed)) & 0xffffffffffff)
     if not ok:
         group = None
-        if vmap[(vtext, FORMS[form[0] if isinstance(form, tuple) else form][1])].kind in ('lambda', 'proj') or FORMS[
-                form[0] if isinstance(form, tuple) else form][2] == 'predicate':
+        if vmap[(vtext, FORMS[first_form(form)][1])].kind in ('lambda', 'proj') or FORMS[first_form(form)][2] == 'predicate':
             again = evaluate(text, pynames, compiler=False)
             if again[0] == 'ok' and model.accepts(exp, again[1]):
                 group = 'expression-compiler-in-lambda-body-changes-result (C05 root cause)'
@@ -425,7 +438,7 @@ def _single(exp):
 
 def classify(case, vmap, exp, got):
     form, vtext, left, a = case
-    forms = form if isinstance(form, tuple) else (form,)
+    forms = (form[1],) if isinstance(form, tuple) and form[0] == '@var' else form if isinstance(form, tuple) else (form,)
     first = forms[0]
     verb = vmap[(vtext, FORMS[first][1])]
     exc = got[1] if got[0] == 'exc' else None
@@ -487,6 +500,8 @@ def enumerate_cases(quick):
             rights = ops + (dicts if form == 'each' else [])
             if lk is None:
                 cases += [(form, v.text, None, a) for a in rights]
+                if v.kind == 'op':
+                    cases += [(('@var', form), v.text, None, a) for a in rights]
             elif lk == 'value':
                 cases += [(form, v.text, l, a) for l in lefts for a in rights]
             elif lk == 'count':
